@@ -156,7 +156,7 @@ def run(ctx):
         "heap bound checked: library peak <= %d*(input + expanded character data and attributes)+%d" % (HEAP_LIN, HEAP_C0),
     ]
     bad = common.forbidden_scan()
-    cres = common.coq_properties([PID, "C02_front", "C02_front3", "C02_conv"])
+    cres = common.coq_properties([PID, "C02_front", "C02_front3", "C02_front4", "C02_conv"])
     common.proof_coverage(ctx, cres)
     proof_broken = (not cres["ok"]) or bool(bad)
     tables = gen.tables_json()
@@ -256,8 +256,24 @@ def run(ctx):
                 knd = knd + " " + " ".join(marks)
                 viol.append({"input": "xmlfront --conv --hex " + str(dgr.get("doc_hex"))[:4000], "kind": "conversion-" + knd,
                              "clauses": ["wbxml_conv_xml2wbxml_run breaks its result contract (%s)" % knd], "answer": str(dgr)[:1500]})
+    # ---- further ties of the front-end model: (a) the C callbacks called directly with arbitrary event lists, state compared
+    #      after every event incl. after an error (sticky-error oracle); (b) events_of (extracted) of the trees the C built,
+    #      replayed through the C callbacks: checks the parser assumptions of the inverse theorem
+    extra = {}
+    for nm in ("correspond_replay", "correspond_inverse"):
+        try:
+            from vlib import xmlfront as _xf2
+            if hasattr(_xf2, nm):
+                extra[nm] = getattr(_xf2, nm)(ctx.seed, quick)
+        except common.BuildError:
+            raise
+        except ImportError:
+            pass
+    for nm, r in extra.items():
+        ctx.coverage[nm] = {k: r[k] for k in ("evaluations", "distribution", "failed_runs", "events") if k in r}
+        ctx.coverage[nm]["disagreements"] = len(r.get("disagreements", []))
     ctx.coverage.update({
-        "evaluations": len(cases) + (front["evaluations"] if front else 0) + (conv["evaluations"] if conv else 0), "distinct_nontrivial": len(nontrivial),
+        "evaluations": len(cases) + (front["evaluations"] if front else 0) + (conv["evaluations"] if conv else 0) + sum(r.get("evaluations", 0) for r in extra.values()), "distinct_nontrivial": len(nontrivial),
         "rule": "documents = project XML corpus + text-level mutations (truncate, flip, repeat/drop/insert elements, CDATA, PIs, entities, "
                 "attribute bloat, unknown names, DOCTYPE removed/replaced, UTF-16/Latin-1 transcoding, deeper wrapping) + prefixes + random + "
                 "nesting around the limit and far beyond + width + internal-entity expansion + embedded DevInf, under random option tuples "
@@ -277,7 +293,12 @@ def run(ctx):
         ctx.violation("conversion-correspondence-broken", {"broken": "Model/ConvXml2Wbxml.v and wbxml_conv_xml2wbxml_run disagree on status or WBXML bytes; no input violating the property's own oracle was found",
                                                             "first_cases": [{k: str(v)[:1500] for k, v in d.items()} for d in conv["disagreements"][:3]],
                                                             "replay_cmd": "python3 -m vlib.xmlfront --conv --hex <doc_hex>"}, found_input=False)
+    for nm, r in extra.items():
+        if not viol and r.get("disagreements"):
+            ctx.violation("front-end-%s-broken" % nm.split("_")[1], {"broken": "Model/XmlFront.v and the C callbacks disagree (%s); no input violating the property's own oracle was found" % nm,
+                                                                   "first_cases": [{k: str(v)[:1500] for k, v in d.items()} for d in r["disagreements"][:3]]}, found_input=False)
+            break
     if not viol and proof_broken:
-        ctx.violation("proof-broken", {"broken": "Properties_C02.v / Properties_C02_front.v / Properties_C02_conv.v no longer check", "failed_theorems": cres["failed"],
+        ctx.violation("proof-broken", {"broken": "Properties_C02*.v no longer check", "failed_theorems": cres["failed"],
                                        "broken_at": cres.get("broken_at"), "forbidden": bad, "log_tail": cres["log"][-3000:],
                                        "search": "sanitizer-backed exploration of %d cases found no failing input" % len(cases)}, found_input=False)
